@@ -94,7 +94,7 @@ class _B:
         opts = ["null", "sleep", "checkpoint"]
         if self.profile == "replay_data":
             opts += ["monitor", "flyer", "subscribe", "configure", "stage_pair"]
-        if self.profile in ("general", "replay", "keys", "lifecycle", "defer"):
+        if self.profile in ("general", "replay", "keys", "lifecycle", "defer", "suspend"):
             opts += ["monitor", "flyer", "subscribe", "rewindable", "configure", "stage_pair"]
         if self.profile == "replay":
             opts += ["monitor", "rewindable", "stage_pair", "subscribe"]
@@ -211,7 +211,10 @@ class _B:
                 nodes.append(M("checkpoint"))
         for _ in range(size):
             k = self.choice(keys)
-            if self.chance(0.7):
+            if self.profile == "keys" and self.chance(0.15):
+                # duplicate open on an open key, guarded so that the plan continues
+                nodes.append(["try", M("open_run", None, run=k, tag="dup"), [["IllegalMessageSequence", "swallow", None]], None])
+            elif self.chance(0.7):
                 nodes += self.point(k)
             else:
                 nodes += self.misc(k)
@@ -293,6 +296,9 @@ def _injection(draw, st, kinds):
 def cases(profile="general"):
     from hypothesis import strategies as st
 
+    crr = profile.endswith("_crr")
+    if crr:
+        profile = profile[: -len("_crr")]
     runprobe = profile.endswith("_runprobe")
     if runprobe:
         profile = profile[: -len("_runprobe")]
@@ -312,6 +318,10 @@ def cases(profile="general"):
             kinds = ["pause", "suspend"]
         elif profile == "errors":
             kinds = []
+        elif profile == "keys":
+            kinds = ["pause", "suspend", "abort", "stop"]
+        elif profile == "suspend":
+            kinds = ["suspend", "suspend", "suspend", "pause"]
         else:
             kinds = ["pause", "defer", "suspend", "abort", "stop", "halt"]
         ninj = (1 if profile == "defer" else draw(st.integers(0 if profile in ("errors",) else 1, 2))) if kinds else 0
@@ -323,7 +333,7 @@ def cases(profile="general"):
                 if draw(st.integers(0, 3)) == 0:
                     st2["inj"] = [_injection(draw, st, ["pause", "suspend"])]
                 stages.append(st2)
-        elif profile == "defer":
+        elif profile in ("defer", "suspend"):
             stages += [{"do": "resume"}, {"do": "resume"}]
         else:
             for _ in range(draw(st.integers(1, 3))):
@@ -346,6 +356,8 @@ def cases(profile="general"):
             case["re"] = {"record_interruptions": True}
         if runprobe:
             case["probe"] = "run"
+        if crr and draw(st.booleans()):
+            case.setdefault("re", {})["call_returns_result"] = True
         return case
 
     return gen()
